@@ -2,6 +2,8 @@ import TTV.Model.Result
 import TTV.Model.ResC04
 import TTV.Spec.C04
 import TTV.Lemmas.LeafAct
+import TTV.Generated.ResCtlSrc
+import TTV.Lemmas.SrcRefRes
 /-! # C04 — run verdict and stop control are consistent with the outcomes reported
 
 Theorems over the tree model M-Res (`TTV/Model/Result.lean`), for **every** graph (any depth / fan-out) of
@@ -3676,5 +3678,145 @@ example :
     (model i).texts = [[.running, .sect 1 2, .ran 2, .failed 1, .running, .ran 0, .ok]] ∧
     (model i).exit = some (1, [.running, .sect 2 1, .ran 2, .failed 1]) := by
   decide
+
+/-! ## the code itself (translator tie, DESIGN D.2a item 2e)
+
+`harness/pyres2lean.py` re-reads the verdict / stop-control code on every run into `TTV/Generated/TTV.Generated.ResCtlSrc.lean`.  Each
+`C04_src_*` theorem has two halves: the term found in the source is the reference term (`rfl`: it fails to check when the
+source moved by more than a harmless rewrite), and the reference term means what the model does. -/
+section src
+
+/-- the meaning of one entry of the `add*` table of `TestResult` -/
+def ttEff (t : Nat) (s : TT) : String → TT
+  | "append errors" => { s with errors := s.errors ++ [t] }
+  | "append failures" => { s with failures := s.failures ++ [t] }
+  | "append unexpectedSuccesses" => { s with uxs := s.uxs ++ [t] }
+  | "append expectedFailures" => { s with xfails := s.xfails ++ [t] }
+  | "skip-bucket" => { s with skipped := s.skipped ++ [t] }
+  | "failfast-stop" => { s with shouldStop := s.shouldStop || s.failfast }
+  | _ => s
+
+def addMethod : Kind → String
+  | .success => "addSuccess" | .error => "addError" | .failure => "addFailure" | .skip => "addSkip"
+  | .xfail => "addExpectedFailure" | .uxsuccess => "addUnexpectedSuccess"
+
+def tblGet (tbl : List (String × List String)) (k : String) : List String := (tbl.lookup k).getD []
+
+/-- **C04 (source: `TestResult.add*`).**  The bookkeeping list every outcome method appends to and the `if self.failfast:
+self.stop()` that follows it (after the append, for errors, failures and unexpected successes only) are those of the model:
+`ttStep` on an outcome is the interpretation of the table read from the source (the log of the recording subclass aside). -/
+theorem C04_src_tt_add :
+    TTV.Generated.ResCtlSrc.ttAdd = TTV.SrcRef.ResCtlSrc.ttAdd ∧
+    ∀ (s : TT) (k : Kind) (t : Nat) (a : Arg),
+      { ttStep s (.add k t a) with log := s.log } = (tblGet TTV.SrcRef.ResCtlSrc.ttAdd (addMethod k)).foldl (ttEff t) s := by
+  refine ⟨rfl, ?_⟩
+  intro s k t a
+  cases k <;> simp [ttStep, tblGet, addMethod, TTV.SrcRef.ResCtlSrc.ttAdd, List.lookup, ttEff, Call.logged]
+
+/-- the counter a name of the `wasSuccessful` table stands for -/
+def counterEmpty (s : TT) : String → Bool
+  | "errors" => s.errors.isEmpty
+  | "failures" => s.failures.isEmpty
+  | "unexpectedSuccesses" => s.uxs.isEmpty
+  | _ => false
+
+/-- **C04 (source: `TestResult.wasSuccessful`).**  `return not (self.errors or self.failures or self.unexpectedSuccesses)`:
+exactly these three counters, all empty. -/
+theorem C04_src_was_successful :
+    TTV.Generated.ResCtlSrc.ttWasSuccessful = TTV.SrcRef.ResCtlSrc.ttWasSuccessful ∧
+    ∀ s : TT, s.wasSuccessful = TTV.SrcRef.ResCtlSrc.ttWasSuccessful.all (counterEmpty s) := by
+  refine ⟨rfl, fun s => ?_⟩
+  simp [TT.wasSuccessful, TTV.SrcRef.ResCtlSrc.ttWasSuccessful, counterEmpty, Bool.and_assoc]
+
+/-- **C04 (source: `TestResult.startTestRun`).**  `failfast` (and `tb_locals`) are saved before `super().__init__()` — which
+is what clears `shouldStop`, `errors`, `failures` and `testsRun` — and restored after it; the tag context, the clock and the
+testtools-only lists are reset in between: the model's `TT.reset` keeps `failfast` and clears everything else. -/
+theorem C04_src_start_test_run :
+    TTV.Generated.ResCtlSrc.ttStartTestRun = TTV.SrcRef.ResCtlSrc.ttStartTestRun ∧
+    (TTV.SrcRef.ResCtlSrc.ttStartTestRun.head? = some "save failfast" ∧ "super-init" ∈ TTV.SrcRef.ResCtlSrc.ttStartTestRun ∧
+     "restore failfast" ∈ TTV.SrcRef.ResCtlSrc.ttStartTestRun.dropWhile (· != "super-init")) ∧
+    ∀ s : TT, (TT.reset s).failfast = s.failfast ∧ (TT.reset s).shouldStop = false ∧ (TT.reset s).errors = [] ∧
+      (TT.reset s).failures = [] ∧ (TT.reset s).uxs = [] ∧ (TT.reset s).xfails = [] ∧ (TT.reset s).skipped = [] ∧
+      (TT.reset s).tags = {} ∧ (TT.reset s).now = .none ∧ (TT.reset s).testsRun = 0 := by
+  refine ⟨rfl, by decide, fun s => ?_⟩
+  simp [TT.reset]
+
+/-- **C04 (source: `MultiTestResult`).**  Every method dispatches its own message to all the wrapped results in order
+(`_dispatch`: one `getattr(result, message)(*args, **kwargs)` per element of `self._results`), `startTest` / `stopTest` /
+`tags` / `startTestRun` after telling the base class (the latter with the `failfast` assignments frozen); `shouldStop` is
+`any` of the adapters' `shouldStop`, `failfast` the first adapter's (default `False`), and assigning it reaches all of them —
+the model's `step (.multi _)`, `shouldStopOf`, `failfastOf`. -/
+theorem C04_src_multi :
+    TTV.Generated.ResCtlSrc.multiMethods = TTV.SrcRef.ResCtlSrc.multiMethods ∧ TTV.Generated.ResCtlSrc.multiDispatch = TTV.SrcRef.ResCtlSrc.multiDispatch ∧
+    TTV.Generated.ResCtlSrc.multiGetFailfast = TTV.SrcRef.ResCtlSrc.multiGetFailfast ∧ TTV.Generated.ResCtlSrc.multiSetFailfast = TTV.SrcRef.ResCtlSrc.multiSetFailfast ∧
+    TTV.Generated.ResCtlSrc.multiGetShouldStop = TTV.SrcRef.ResCtlSrc.multiGetShouldStop ∧ TTV.Generated.ResCtlSrc.multiKeepingFailfast = TTV.SrcRef.ResCtlSrc.multiKeepingFailfast ∧
+    TTV.Generated.ResCtlSrc.multiWasSuccessful = TTV.SrcRef.ResCtlSrc.multiWasSuccessful ∧ TTV.Generated.ResCtlSrc.multiProperties = TTV.SrcRef.ResCtlSrc.multiProperties ∧
+    (∀ (cs : List Shape) (own : TT) (inner : StL cs),
+      shouldStopOf (.multi cs) (own, inner) = (shouldStopL cs inner).any id ∧
+      failfastOf (.multi cs) (own, inner) = (failfastL cs inner).headD false ∧
+      (step (.multi cs) (own, inner) .stop).2 = stepL cs inner .stop ∧
+      ∀ b, (step (.multi cs) (own, inner) (.setFailfast b)).2 = stepL cs inner (.setFailfast b)) :=
+  ⟨rfl, rfl, rfl, rfl, rfl, rfl, rfl, rfl, fun _ _ _ => ⟨rfl, rfl, rfl, fun _ => rfl⟩⟩
+
+/-- **C04 (source: `TestResultDecorator`).**  `stop()` goes to `self.decorated.stop()`, `shouldStop` and `failfast` read the
+decorated result's, assigning `failfast` assigns it there; every other method forwards one call of the same name. -/
+theorem C04_src_deco :
+    TTV.Generated.ResCtlSrc.decoForward = TTV.SrcRef.ResCtlSrc.decoForward ∧
+    tblGet TTV.SrcRef.ResCtlSrc.decoForward "stop" = ["return self.decorated.stop()"] ∧
+    tblGet TTV.SrcRef.ResCtlSrc.decoForward "get shouldStop" = ["return self.decorated.shouldStop"] ∧
+    tblGet TTV.SrcRef.ResCtlSrc.decoForward "get failfast" = ["return getattr(self.decorated, 'failfast', False)"] ∧
+    tblGet TTV.SrcRef.ResCtlSrc.decoForward "set failfast" = ["self.decorated.failfast = a0"] ∧
+    (∀ (c : Shape) (st : St c),
+      step (.deco c) st .stop = step c st .stop ∧ shouldStopOf (.deco c) st = shouldStopOf c st ∧
+      failfastOf (.deco c) st = failfastOf c st ∧ ∀ b, step (.deco c) st (.setFailfast b) = step c st (.setFailfast b)) :=
+  ⟨rfl, by decide, by decide, by decide, by decide, fun _ _ => ⟨rfl, rfl, rfl, fun _ => rfl⟩⟩
+
+/-- **C04 (source: stop control of `ThreadsafeForwardingResult` and `ExtendedToOriginalDecorator`).**  The forwarder calls
+`_stop_if_failfast()` (`if self.failfast: self.stop()`) after the block of an error, a failure and an unexpected success and
+of nothing else (`tfrStops`); the adapter's `stop()` / `shouldStop` / `failfast` fall back to its own flags exactly when the
+target lacks the attribute, and `startTestRun` clears its own `_shouldStop`. -/
+theorem C04_src_stop_control :
+    TTV.Generated.ResCtlSrc.tfrAdd = TTV.SrcRef.ResCtlSrc.tfrAdd ∧ TTV.Generated.ResCtlSrc.tfrStopIfFailfast = TTV.SrcRef.ResCtlSrc.tfrStopIfFailfast ∧
+    TTV.Generated.ResCtlSrc.tfrStop = TTV.SrcRef.ResCtlSrc.tfrStop ∧ TTV.Generated.ResCtlSrc.tfrGetShouldStop = TTV.SrcRef.ResCtlSrc.tfrGetShouldStop ∧
+    TTV.Generated.ResCtlSrc.tfrWasSuccessful = TTV.SrcRef.ResCtlSrc.tfrWasSuccessful ∧ TTV.Generated.ResCtlSrc.controlStop = TTV.SrcRef.ResCtlSrc.controlStop ∧
+    TTV.Generated.ResCtlSrc.etodStop = TTV.SrcRef.ResCtlSrc.etodStop ∧ TTV.Generated.ResCtlSrc.etodStartTestRun = TTV.SrcRef.ResCtlSrc.etodStartTestRun ∧
+    TTV.Generated.ResCtlSrc.etodGetFailfast = TTV.SrcRef.ResCtlSrc.etodGetFailfast ∧ TTV.Generated.ResCtlSrc.etodSetFailfast = TTV.SrcRef.ResCtlSrc.etodSetFailfast ∧
+    TTV.Generated.ResCtlSrc.etodGetShouldStop = TTV.SrcRef.ResCtlSrc.etodGetShouldStop ∧ TTV.Generated.ResCtlSrc.etodSetShouldStop = TTV.SrcRef.ResCtlSrc.etodSetShouldStop ∧
+    (∀ k : Kind, ("stop-if-failfast" ∈ tblGet TTV.SrcRef.ResCtlSrc.tfrAdd (addMethod k)) = (!k.passing : Bool)) ∧
+    (∀ (own : TfrOwn) (k : Kind), tfrStops own k = if own.tt.failfast && !k.passing then [.stop] else []) := by
+  refine ⟨rfl, rfl, rfl, rfl, rfl, rfl, rfl, rfl, rfl, rfl, rfl, rfl, ?_, fun _ _ => rfl⟩
+  intro k; cases k <;> decide
+
+/-- **C04 (source: the exit status of `testtools.run`).**  `TestToolsTestRunner.run` starts the run, runs the tests and
+stops the run in a `finally`; `TestProgram.runTests` ends with `sys.exit(not self.result.wasSuccessful())` under `if
+self.exit`: status 1 exactly when the result is not successful (`runProgK`). -/
+theorem C04_src_exit :
+    TTV.Generated.ResCtlSrc.runnerRun = TTV.SrcRef.ResCtlSrc.runnerRun ∧ TTV.Generated.ResCtlSrc.exitDecision = TTV.SrcRef.ResCtlSrc.exitDecision ∧
+    ∀ (ff : Bool) (ks : List Kind),
+      (runProgK ff ks).1 =
+        if (run (.text ff) (init (.text ff)) ([.startTestRun] ++ progCalls ff 0 ks ++ [.stopTestRun]) : TextSt).tt.wasSuccessful
+        then 0 else 1 :=
+  ⟨rfl, rfl, fun _ _ => rfl⟩
+/-- **C04 (source: what a new run resets in the stream adapter; assignments to the forwarder's `shouldStop`).**
+`ExtendedToStreamDecorator.startTestRun` tells the base classes, then resets the tag context, `shouldStop`, the clock and sets
+`_started` (`e2sStart`: every own field but `failfast` — the installed `StreamFailFast` target stays — and the recorder-side `sent`
+is back at its default); `failfast` is "a second target is installed"; `ThreadsafeForwardingResult._set_shouldStop` has an empty body
+(the assignment the base class's `__init__` makes is dropped, so constructing a forwarder does not touch the target). -/
+theorem C04_src_run_resets :
+    TTV.Generated.ResCtlSrc.tfrInit = TTV.SrcRef.ResCtlSrc.tfrInit ∧
+    TTV.Generated.ResCtlSrc.tfrSetShouldStop = TTV.SrcRef.ResCtlSrc.tfrSetShouldStop ∧
+    TTV.Generated.ResCtlSrc.e2sInit = TTV.SrcRef.ResCtlSrc.e2sInit ∧
+    TTV.Generated.ResCtlSrc.e2sStartTestRun = TTV.SrcRef.ResCtlSrc.e2sStartTestRun ∧
+    TTV.Generated.ResCtlSrc.e2sGetFailfast = TTV.SrcRef.ResCtlSrc.e2sGetFailfast ∧
+    TTV.Generated.ResCtlSrc.e2sSetFailfast = TTV.SrcRef.ResCtlSrc.e2sSetFailfast ∧
+    TTV.SrcRef.ResCtlSrc.tfrSetShouldStop = ["def(self, a0):"] ∧
+    ("  self.shouldStop = False" ∈ TTV.SrcRef.ResCtlSrc.e2sStartTestRun) ∧
+    (∀ {σ : Type} (I : Iface σ) (own : E2S) (inner : σ),
+      (e2sStart I own inner).1 = { started := true, failfast := own.failfast, sent := own.sent } ∧
+      (e2sStart I own inner).1.shouldStop = false ∧ (e2sStart I own inner).1.now = .none ∧
+      (e2sStart I own inner).1.tags = {} ∧ (e2sStart I own inner).2 = I.step inner .startTestRun) := by
+  refine ⟨rfl, rfl, rfl, rfl, rfl, rfl, rfl, by decide, fun _ _ _ => ⟨rfl, rfl, rfl, rfl, rfl⟩⟩
+
+end src
 
 end TTV.Props.C04
